@@ -485,6 +485,9 @@ void Executor::addPC(State &s, const z3::expr &c) {
     if (sc.is_true()) return;
     if (!s.pcHasFP && isHeavy(sc)) s.pcHasFP = true;
     s.pc.push_back(sc);
+    s.fact[sc.id()] = true;
+    if (sc.is_not()) s.fact[sc.arg(0).id()] = false; else s.fact[(!sc).simplify().id()] = false;
+    if (sc.is_and()) for (unsigned i = 0; i < sc.num_args(); i++) { z3::expr a = sc.arg(i); s.fact[a.id()] = true; if (a.is_not()) s.fact[a.arg(0).id()] = false; }
 }
 z3::check_result Executor::check(State &s, const z3::expr &extra, unsigned timeoutMs, z3::model *outModel) {
     auto t = std::chrono::steady_clock::now();
@@ -524,8 +527,11 @@ bool Executor::mayBeTrue(State &s, const z3::expr &c, bool &unknown) {
     z3::expr sc = c.simplify();
     if (sc.is_true()) return true;
     if (sc.is_false()) return false;
+    auto it = s.fact.find(sc.id());
+    if (it != s.fact.end()) { qCached++; return it->second; }
     z3::check_result r = check(s, sc, opt.branchTimeoutMs);
     if (r == z3::unknown) { unknown = true; return true; }
+    if (r == z3::unsat) { s.fact[sc.id()] = false; if (sc.is_not()) s.fact[sc.arg(0).id()] = true; else s.fact[(!sc).simplify().id()] = true; }
     return r == z3::sat;
 }
 StateP Executor::fork(State &s) {
